@@ -30,7 +30,7 @@ RULE = ("each run draws capacity 1-12, a refill rate from {0.005..50}/s, 1-5 pee
         "bound over the admitted history. distinct = distinct (config, decision-vector, eviction "
         "pattern) signatures; non-trivial = at least one refusal AND (an eviction or a concurrent "
         "burst or a second address) occurred")
-PROBES = ["wire_mode_over_tls", "uploads_in_wire_mode", "peer_says_goodbye_with_its_request", "wall_clock_stepped_during_the_run", "peer_reset_after_admission", "requests_with_varying_client_certificate", "many_address_flood", "config_from_toml", "cleanup_race_scenario", "eviction_happened", "refusal", "slow_refill_run", "concurrent_burst", "wire_mode",
+PROBES = ["limiter_is_the_middleware_itself", "wire_mode_over_tls", "uploads_in_wire_mode", "peer_says_goodbye_with_its_request", "wall_clock_stepped_during_the_run", "peer_reset_after_admission", "requests_with_varying_client_certificate", "many_address_flood", "config_from_toml", "cleanup_race_scenario", "eviction_happened", "refusal", "slow_refill_run", "concurrent_burst", "wire_mode",
           "idle_ge_600_with_partial_bucket"]
 COMPONENTS = {
     "real": ["nauyaca.server.middleware.RateLimiter/TokenBucket/MiddlewareChain",
@@ -290,6 +290,26 @@ def run_one(ch):
 
         comps = ([Slow()] if slow_mw else []) + [Entry(), rl, Exit()]
         chain = MiddlewareChain(comps)
+        # ... or the limiter object itself is the server's middleware (no chain around it): the
+        # harness then watches it through a subclass that only records the calls
+        bare = ch.chance("bare_limiter", 0.15)
+        if bare:
+            await rl.stop()
+
+            class Watched(RateLimiter):
+                async def process_request(self, url, ip, fp=None):
+                    order.append((net.now, ip))
+                    seen_as[url] = ip
+                    r = await RateLimiter.process_request(self, url, ip, fp)
+                    if r[0]:
+                        exits.append(ip)
+                        admitted_urls.add(url)
+                    return r
+            rl = Watched(make_config())
+            rl_holder["rl"] = rl
+            rl.start()
+            chain = rl
+            res.stats["limiter_is_the_middleware_itself"] += 1
         # asynchronous handler + peers that reset their connection after admission and
         # before the answer: an admitted request stays admitted
         async_h = ch.chance("async_handler", 0.4)
@@ -355,7 +375,12 @@ def run_one(ch):
         by_ip = {}
         for ip, p in peers:
             by_ip.setdefault(ip, []).append(p)
-        if len(order) > len(peers) or (len(order) < len(peers) and not leavers):
+        if len(order) < len(peers) and not leavers:
+            res.violate("C10/limiter-not-consulted",
+                        f"wire mode: {len(peers)} requests reached the server, the limiter was asked "
+                        f"{len(order)} times", bare_limiter=bare, wire_mode=wmode)
+            return
+        if len(order) > len(peers):
             raise RuntimeError(f"wire mode: {len(order)} limiter entries for {len(peers)} requests")
         # peers of one ip may be reordered by the slow component; match by outcome count instead:
         # replay entry order through the model and compare the multiset of outcomes per ip
